@@ -526,8 +526,18 @@ impl JsonParser {
         let byte = state.current_byte();
 
         match byte {
-            b'{' => self.parse_object(state),
-            b'[' => self.parse_array(state),
+            b'{' | b'[' => {
+                // the nesting depth is chosen by the input: refuse it before it exhausts the stack
+                if state.depth >= MAX_NESTING_DEPTH {
+                    return Err(ZiporaError::InvalidData {
+                        message: format!("JSON nesting deeper than {} at position {}", MAX_NESTING_DEPTH, state.pos),
+                    });
+                }
+                state.depth += 1;
+                let value = if byte == b'{' { self.parse_object(state) } else { self.parse_array(state) };
+                state.depth -= 1;
+                value
+            }
             b'"' => self.parse_string(state),
             b't' | b'f' => self.parse_boolean(state),
             b'n' => self.parse_null(state),
@@ -803,7 +813,12 @@ struct ParserState<'a> {
     #[allow(dead_code)]
     indices: StructuralIndices,
     pos: usize,
+    /// current nesting depth of arrays / objects (bounded: the parser is recursive)
+    depth: usize,
 }
+
+/// Deepest nesting of arrays / objects the recursive parser accepts.
+const MAX_NESTING_DEPTH: usize = 128;
 
 impl<'a> ParserState<'a> {
     fn new(data: &'a [u8], indices: StructuralIndices) -> Self {
@@ -811,6 +826,7 @@ impl<'a> ParserState<'a> {
             data,
             indices,
             pos: 0,
+            depth: 0,
         }
     }
 
